@@ -15,7 +15,9 @@ import Nstd.Xml.Model
     String(p, n) / attach(p, n)    -> `mem t p n` (n bytes at p, all inside the text)
     `while(<test of *e only, incl. *e != 0>) ++e;` -> `span test (cstr t e)` bytes are stepped over
     Position                       -> Pos; `commentEnd` (null pointer inside = none) -> Option Pos
-    loop body                      -> function St -> Res Ctl (continue / nested loop entered / break / return)
+    loop body                      -> function St -> Res Ctl (continue of a loop / nested loop entered / return); `break` =
+                                      the statements behind the loop, in place; private helpers without parameters in place
+    `p[k] == 'a' && p[k+1] == 'b' …` (consecutive, non-NUL) -> the same `strncmp0` as String::compare(p + k, "ab…", n) == 0
     `return syntaxError(P, "..."), false` -> `.err` with line and column as `syntaxError` computes them
 -/
 namespace Nstd.Xml.CSem
@@ -27,12 +29,13 @@ structure St where
   tok : Token
   text : Bytes
 
-/-- control outcome of one run of a loop body / straight-line segment -/
+/-- control outcome of one run of a loop body / straight-line segment.  Loops are numbered by nesting depth (`lvl` 0 = the
+    outermost loop of the function).  There is no outcome for `break`: the statements behind a loop are compiled in place at
+    every `break` (so "`break;` … `continue;`" and "`return true` from a helper … `continue;`" give the same outcome). -/
 inductive Ctl where
-  | next (s : St)                     -- `continue`, or the end of the body
-  | enter (s : St) (loc : List Nat)   -- control stands in front of the (nested) loop; values of the live locals
-  | leave (s : St)                    -- `break`
-  | ret (s : St)                      -- `return` / `return true`
+  | next (lvl : Nat) (s : St)                     -- `continue` of the loop at depth `lvl` (also: the end of its body)
+  | enter (lvl : Nat) (s : St) (loc : List Nat)   -- control stands in front of the loop at depth `lvl`; values of the live locals
+  | ret (s : St)                                  -- `return` / `return true` of the translated function
 
 /-- `n` bytes at offset `a`, all of them text bytes -/
 def mem (t : Bytes) (a n : Nat) : Res Bytes :=
